@@ -137,6 +137,7 @@ Definition model_out (c : tcase) : list (list Z) :=
   else if k =? 32 then enc_lex (lex_null a0)
   else if k =? 33 then enc_res enc_str (simple_parse a0)
   else if k =? 34 then [simple_format a0]
+  else if k =? 35 then [number_format_str (dec_num a0)]
   else if k =? 40 then run_hist (c_sm c) (c_dm c) (c_rm c) a
   else [[-99]].
 
